@@ -63,6 +63,32 @@ CHECK_DEADLOCK FALSE
 """ % (threads, nkinds, classes, variants, nshards, maxops, keeps, ops, weighted, enum))
 
 
+def keymemo_cfg(name, witness, invs, threads="{1,2,3}", cloners="{2,3}", maxops=2):
+    """Registry composed with the hash memo of one shared lazily hashed key (RegistryKeyMemo.tla)."""
+    return write(name, """SPECIFICATION KSpec
+CONSTANTS
+ Threads = %s
+ NKinds = 1
+ Classes = {1}
+ Variants = {0}
+ NShards = 2
+ ShardFns <- MC_ShardFnsLast
+ MaxOps = %d
+ KeepSets <- MC_NoSets
+ OpKinds <- MC_NoOps
+ Recheck = TRUE
+ ClearSkipsBusy = FALSE
+ CloneMayMemoiseZero = %s
+ SharedClass = 1
+ SharedKind = 0
+ Users = {1}
+ Cloners = %s
+INVARIANTS %s
+VIEW MC_KView
+CHECK_DEADLOCK FALSE
+""" % (threads, maxops, witness, cloners, invs))
+
+
 def trace_cfg(nshards):
     return write("trace_%d" % nshards, """SPECIFICATION TraceSpec
 CONSTANTS
@@ -115,9 +141,9 @@ def validate(chk, trace, summ, what):
     return vlib.validate_concat(chk, SPEC, "MCTraceRegistry", cfg, trace, what, timeout=1800)
 
 
-def negative_control(chk, name, cfg, expect):
+def negative_control(chk, name, cfg, expect, module="MCRegistry"):
     """The invariants must fail on the specification with the mechanism switched off (not vacuous)."""
-    r = vlib.tlc_mc(SPEC, "MCRegistry", cfg, workers=2, timeout=600, coverage=False, tag=name)
+    r = vlib.tlc_mc(SPEC, module, cfg, workers=2, timeout=600, coverage=False, tag=name)
     if r.get("error") == "timeout":
         chk.tool_error("TLC timeout: negative control " + name, r["out"])
     if r["invariant"] not in expect:
@@ -152,6 +178,9 @@ def run(chk):
         "in scheduled runs (the code has no yield point there): TLC explores those interleavings with explicit shard locks, "
         "the held-lock runs park a callback inside one shard, the real-parallel trials sample the rest with "
         "schedule-independent checks",
+        "the registry locates a key by the hash the key instance memoises: equal keys must memoise the same hash, also copies "
+        "taken during the first hashing of a shared key (RegistryKeyMemo.tla checks that on the composition; every call of "
+        "the harness logs whether its key instance hashes like the canonical key; Key's own memo protocol is C03)",
         "key alphabet: labels with pairwise distinct names (duplicate label names: C03 CF03); key equality itself is C03",
         "lock poisoning (a panicking `op` closure) is not modelled",
     ]
@@ -179,6 +208,20 @@ def run(chk):
     # witness of the try_write variant of clear(): a shard whose lock is held (a visitor inside its callback) is skipped
     negative_control(chk, "clear_skips_busy_shard", mc_cfg("neg_clear_skips_busy", "{t1,t2}", 1, "{1,2}", V2, 2, 2, "MC_KeepSome",
                                                            "MC_OpsWitness", skipbusy="TRUE"), {"RemovalExact"})
+
+    # the assumption the registry model rests on (equal keys memoise the same hash), checked on the composition with the
+    # key's hash memo: users of a shared lazily hashed key + cloners taking copies at any moment of its first hashing
+    kinv = "TypeOK AtMostOne SameStorage NoSharing LookupComplete DeleteTruthful MemoContract MemoOK"
+    kcfgs = [("keymemo_1u2c", keymemo_cfg("keymemo_1u2c", "FALSE", kinv))]
+    if thorough:
+        kcfgs.append(("keymemo_1u3c", keymemo_cfg("keymemo_1u3c", "FALSE", kinv, threads="{1,2,3,4}", cloners="{2,3,4}", maxops=2)))
+    for name, cfg in kcfgs:
+        r = vlib.tlc_mc(SPEC, "MCRegistryKeyMemo", cfg, workers=4, timeout=1800, tag=name)
+        if not chk.expect_mc_ok(r, "RegistryKeyMemo/" + name):
+            return
+        chk.log("TLC %s: %d distinct states, %d generated, depth %d" % (name, r["distinct"], r["generated"], r["depth"]))
+    negative_control(chk, "clone_may_memoise_zero", keymemo_cfg("neg_clone_zero", "TRUE", "AtMostOne"), {"AtMostOne"},
+                     module="MCRegistryKeyMemo")
 
     # ---- 2. harness against the repository's working tree
     ok, out, wall = vlib.cargo_build("c06")
@@ -296,7 +339,32 @@ def run(chk):
         chk.log("held-lock runs: %d at %d shards, %d calls returned while the lock was held, %d after the release: validated"
                 % (s["runs"], s["nshards"], s["calls_returned_while_lock_held"], s["calls_returned_after_release"]))
 
-    # ---- 6. real-parallel trials (8 creators of one fresh key behind a barrier; mixed creators/deleters/retain/visits)
+    # ---- 6. clone runs: a shared lazily hashed key is hashed for the first time inside get_or_create while other threads
+    #         clone it and use their copies (scheduled: yields inside Key::get_hash, a copy at every point; real-parallel:
+    #         fresh keys placed across a cache-line boundary, 1 registrar + 3 cloners)
+    nclone = 600 if thorough else 60
+    for pname, cpus in pins:
+        if pname in ("2cpu", "4cpu") and not thorough:
+            continue
+        tr = chk.path("clone_%s.ndjson" % pname)
+        s = run_harness(chk, ["clone", "--runs", nclone, "--out", tr], cpus, "clone " + pname)
+        n = validate(chk, tr, s, "clone runs (%d shards)" % s["nshards"])
+        total += n
+        chk.cov["distinct_nontrivial"] += s["distinct"]
+        chk.notes.setdefault("clone", []).append({k: s.get(k) for k in ("nshards", "runs", "distinct", "lines", "not_done")})
+        chk.log("clone runs: %d scheduled at %d shards, %d events: validated" % (s["runs"], s["nshards"], s["lines"]))
+    tr = chk.path("clonefree.ndjson")
+    s = run_harness(chk, ["clonefree", "--runs", 200 if thorough else 12, "--keys", 2048, "--out", tr], None, "clonefree", timeout=1800)
+    validate(chk, tr, s, "real-parallel clone trials")
+    total += s["runs"]
+    chk.notes["clonefree"] = {k: s.get(k) for k in ("runs", "keys_per_run", "copies_checked", "registry_calls", "memo_layout", "nshards")}
+    if not s.get("memo_layout"):
+        chk.assumptions.append("the layout of Key's memo fields could not be determined: real-parallel clone trials ran with keys in an "
+                               "ordinary Vec (far less sensitive to the order of the two loads of Key::clone)")
+    chk.log("real-parallel clone trials: %d runs x %d fresh keys, %d registry calls, %d copies checked: validated"
+            % (s["runs"], s["keys_per_run"], s["registry_calls"], s["copies_checked"]))
+
+    # ---- 7. real-parallel trials (8 creators of one fresh key behind a barrier; mixed creators/deleters/retain/visits)
     nfree = 20000 if thorough else 1000
     for pname, cpus in pins:
         if pname in ("1cpu", "2cpu"):
@@ -314,7 +382,7 @@ def run(chk):
                        "assignment of classes to 1-3 shards; implementation: scheduler-driven runs at 1 / 2 / n shards "
                        "(distinct = distinct call + grant sequences, ignoring the construction path), TLC behaviours "
                        "(simulated sequential histories and races, every behaviour of the 2-thread x 2-call creator/deleter scope) "
-                       "replayed, held-lock runs (a callback parked inside a shard while another thread calls the registry), "
+                       "replayed, clone runs (copies of a shared lazily hashed key taken during its first hashing), held-lock runs (a callback parked inside a shard while another thread calls the registry), "
                        "real-parallel trials; evaluations = trace states in which TLC evaluated every invariant")
 
 
